@@ -604,6 +604,25 @@ func (c *callRun) clientOp(a *actor, op Op) {
 				return
 			}
 		}
+	case "RecvLast":
+		// the caller's last use of the stream: from here on nothing but the
+		// call in progress refers to it (a garbage collection during the call
+		// must not cancel it)
+		st := c.stream
+		if st == nil {
+			return
+		}
+		c.stream = nil
+		m := c.newDest()
+		c.emit("CRecvCall")
+		a.cur.Store("Recv")
+		err := st.RecvMsg(m)
+		a.cur.Store("")
+		id := 0
+		if err == nil {
+			id = c.internResp(m)
+		}
+		c.emit("CRecvRet", "res", classify(err, c.sts), "msg", id)
 	case "Header":
 		if c.stream == nil {
 			return
